@@ -134,3 +134,107 @@ def o19_6(tier):
             ctx.ensure([] in out and [0, -1, 1] in out, "empty and unbounded regions are not touched here")
         return h
     return [(f"corners={n}", mk(n)) for n in ((3,) if tier == "quick" else (3, 4))]
+
+
+@obligation("O19.7", ["C19", "C10"], [T + ":create_lattice_elements", T + ":remove_infinite_regions", T + ":create_lattice", T + ":get_vertex_number", T + ":get_enum"],
+            "create_lattice_elements + create_lattice on a given diagram (A-voronoi: the Voronoi object is what scipy returns) - a 2x2 arrangement of "
+            "rectangular regions with symbolic (rounded) spacing, stored in mixed senses and from different starting corners, plus an empty, an unbounded "
+            "and an oversized bounded region: one cell per bounded region below the cut-off with the region's corners as its cycle, shared corners and "
+            "ridges interned once, all cells in one rotational sense, consistent mesh; a later call with a larger cut-off sees the oversized region", tier="Pn")
+def o19_7(tier):
+    def mk(symbolic):
+        return lambda ctx: h(ctx, symbolic)
+
+    def h(ctx, symbolic):
+        te = ctx.module(T)
+        from fvc import sym as _sym
+        r3 = (lambda v: _sym.py_round(v, 3)) if ctx.mode == "sym" else (lambda v: round(v, 3))
+        if symbolic:
+            X = [r3(ctx.real(f"rx{i}")) for i in range(3)]
+            Y = [r3(ctx.real(f"ry{i}")) for i in range(3)]
+            for seq in (X, Y):
+                ctx.assume(ctx.And(seq[1] > seq[0] + 2, seq[2] > seq[1] + 2, seq[1] < seq[0] + 3, seq[2] < seq[1] + 3),
+                           "pre: rectangular arrangement with spacings between 2 and 3: every small region has a diameter below 4.25, the outer one above 5.6")
+        else:
+            ox, oy = ctx.real("ox"), ctx.real("oy")          # keeps the instance non-trivial for the sampler; the diagram itself is concrete
+            X, Y = [100.0, 102.5, 104.75], [-3.25, -1.0, 1.5]
+        corner = lambda rr, cc: rr * 3 + cc
+        V = [[X[cc], Y[rr]] for rr in range(3) for cc in range(3)]
+        small = {(0, 0): [corner(0, 0), corner(0, 1), corner(1, 1), corner(1, 0)],            # counter-clockwise from its lower left corner
+                 (0, 1): [corner(1, 2), corner(0, 2), corner(0, 1), corner(1, 1)],            # clockwise, other start
+                 (1, 0): [corner(2, 1), corner(2, 0), corner(1, 0), corner(1, 1)],            # counter-clockwise, other start
+                 (1, 1): [corner(1, 1), corner(2, 1), corner(2, 2), corner(1, 2)]}            # clockwise
+        outer = [corner(0, 0), corner(0, 2), corner(2, 2), corner(2, 0)]
+        V.append([X[2] + 50, Y[2] + 50])                     # a far corner, listed LAST in its region: only it makes the region oversized
+        spike = [corner(1, 2), corner(2, 2), 9]
+        # two oversized regions in a row (outer, spike): both must go at the small cut-off
+        regions = [[], list(small[(0, 0)]), [0, -1, 1], list(small[(0, 1)]), list(outer), list(spike), list(small[(1, 0)]), list(small[(1, 1)])]
+        if ctx.mode == "sym":
+            from fvc import npmodel
+
+            class Tess:
+                def fvc_getattr(self, it, name):
+                    if name == "vertices":
+                        return npmodel.asarray([list(p) for p in V])
+                    if name == "regions":
+                        return [list(r) for r in regions]
+                    raise AttributeError(name)
+            mk_tess = lambda it, a, k: Tess()
+        else:
+            np_ = ctx.module("numpy")
+
+            class TessN:
+                pass
+
+            def mk_tess(it, a, k):
+                t = TessN()
+                t.vertices, t.regions = np_.array([list(p) for p in V], dtype=float), [list(r) for r in regions]
+                return t
+        ctx.stub("scipy.spatial.Voronoi", mk_tess, "A-voronoi: the diagram of the centres (vertices, regions) is what scipy.spatial.Voronoi returns")
+        from .common import stub_center
+        stub_center(ctx)
+        if ctx.mode != "sym":
+            ctx.apply_stubs = True
+            ctx.stub("scipy.spatial.Voronoi", mk_tess)
+        centres = [(0.0, 0.0), (1.0, 0.0), (0.0, 1.0), (1.0, 1.0)]
+
+        def run(md, want_regions, label):
+            nv, ne, nc = ctx.list_of(ctx.call(ctx.get(te, "create_lattice_elements"), centres, max_distance=md))
+            verts = dict(ctx.list_of(nv))
+            edges = {k: ctx.list_of(v) for k, v in ctx.list_of(ne)}
+            cells = {k: ctx.list_of(v) for k, v in ctx.list_of(nc)}
+            ctx.ensure(len(cells) == len(want_regions), f"{label}: one cell per bounded region below the cut-off ({len(want_regions)})")
+            ctx.ensure(len({abs(k) for k in cells}) == len(cells), f"{label}: cell numbers are distinct")
+            used = sorted({i for reg in want_regions for i in reg})
+            ctx.ensure(len(verts) == len(used), f"{label}: every corner interned exactly once ({len(used)} vertices)")
+            pos = {vid: ctx.list_of(p) for vid, p in verts.items()}
+            def vid_of(i):
+                hit = [vid for vid, p in pos.items() if ctx.it.truth(ctx.And(ctx.eq(p[0], V[i][0]), ctx.eq(p[1], V[i][1])))] if ctx.mode == "sym" else \
+                      [vid for vid, p in pos.items() if ctx.close(p[0], V[i][0]) and ctx.close(p[1], V[i][1])]
+                return hit[0] if len(hit) == 1 else None
+            ids = {i: vid_of(i) for i in used}
+            ctx.ensure(all(v is not None for v in ids.values()), f"{label}: each used corner is a vertex at its rounded position")
+            seen_pairs = {}
+            for (cnum, reg) in zip(sorted(cells, key=abs), want_regions):
+                walk = []
+                for e in cells[cnum]:
+                    a, b = edges[abs(e)]
+                    walk.append((a, b) if e > 0 else (b, a))
+                    seen_pairs.setdefault(frozenset((a, b)), []).append(e)
+                want = [(ids[reg[i]], ids[reg[(i + 1) % len(reg)]]) for i in range(len(reg))]
+                ctx.ensure(walk == want, f"{label}: cell {abs(cnum)} walks its region's corners in the region's order, ridge by ridge")
+            ctx.ensure(len(edges) == len(seen_pairs) and all(len(v) <= 2 for v in seen_pairs.values()), f"{label}: every ridge interned once and used by at most two cells")
+            vs, es, cs = ctx.list_of(ctx.call(ctx.get(te, "create_lattice"), nv, ne, nc))
+            signs = [ctx.callm(c, "get_area_sign") for _, c in ctx.list_of(cs)]
+            if not signs:
+                ctx.ensure(False, f"{label}: the lattice has cells")
+                return
+            ctx.ensure(ctx.And(*[ctx.eq(sg, signs[0]) for sg in signs] + [ctx.Not(ctx.eq(signs[0], 0))]), f"{label}: all cells stored in the same rotational sense")
+            for cid, c in ctx.list_of(cs):
+                cyc = [ctx.get(w, "id") for w in ctx.list_of(ctx.get(c, "vertices"))]
+                ctx.ensure(len(cyc) in (3, 4) and len(set(cyc)) == len(cyc), f"{label}: cell {cid} has its corners, none repeated")
+        four = [small[(0, 0)], small[(0, 1)], small[(1, 0)], small[(1, 1)]]
+        run(4.3, four, "cut-off 4.3")
+        run(100.0, [small[(0, 0)], small[(0, 1)], outer, spike, small[(1, 0)], small[(1, 1)]], "cut-off 100 afterwards")
+        run(4.3, four, "cut-off 4.3 again")
+    return [("2x2-rectangles+empty+unbounded+oversized,concrete-spacing", mk(False))]
